@@ -13,6 +13,12 @@ merge_states/get_result).
 
 Oracle (differential): one fresh accumulator fed the whole dataset in one
 batch; canonicalised results compared with rtol=1e-9, atol=1e-12, NaN==NaN.
+"Up to floating-point rounding": every accumulator with a numeric statistic as
+result is enumerated a second time over a large-offset alphabet (|value| >>
+spread: 1e8 + {0,1,3}, 1.7e9 + {0.1,2.7,5.3}, 2-D mixing large-offset, small,
+negative-offset and NaN columns), where algebraically equivalent formulas are
+no longer numerically equivalent; tolerances there are per component and
+measured (see accumulators.TOL_*).
 Order-carrying accumulators: equality with the concatenation in shard order.
 Reservoir sampler: size, membership (multiset inclusion), reviewed-count.
 
@@ -285,7 +291,12 @@ def run(ctx):
           units.append((key, d.api, c))
   ctx.rule = (
       'every catalogue entry (accumulator x configuration) x every dataset of '
-      '1..N rows over its 3-4 row alphabet (N=3 quick; thorough 4, and 5 for '
+      '1..N rows over its 3-4 row alphabet (small exact values; plus, for '
+      'Mean/MeanAndVariance/Var/MinMaxAndCount/Histogram/'
+      'SymmetricPredictionDifference/RRegression(center=False)/MeanState/'
+      'TupleMeanState, large-offset alphabets 1e8+{0,1,3}, 1.7e9+{0.1,2.7,5.3}'
+      ', 2-D rows mixing a 1e8-offset column, a small column with NaN and a '
+      '-3e8-offset column with NaN, as separate catalogue entries) (N=3 quick; thorough 4, and 5 for '
       'the cheap scalar families through the metric API) x every two-level composition into <= '
       f'{MAX_SHARDS} contiguous shards (empty shards allowed) and >= 1 non-empty '
       'batches per shard (+ one empty batch before/after a shard where accepted) '
@@ -302,6 +313,12 @@ def run(ctx):
       'receives an empty batch (documented "non-vacant")',
       'alphabet values are small integers / dyadic fractions so that sums are '
       'exact in every order; tolerance rtol=1e-9 atol=1e-12 otherwise',
+      'large-offset entries: mean within 1e-13 relative, var within 1e-5 '
+      'relative + 1e-9 absolute of the one-batch value (worst deviation of '
+      'the unchanged tree over the whole space: mean 2.0e-16, var 9.9e-8), '
+      'counts/min/max/histograms exact; RRegression(center=True) is not '
+      'enumerated at a large offset (its one-batch result is E[xy]-E[x]E[y] '
+      'by construction)',
       'ValueAccumulator without concat_fn stores one value per add(): rows are '
       'fed one per call, only the sharding varies',
   ]
@@ -310,6 +327,7 @@ def run(ctx):
         and (not only or e.name in only or k in only)]
   ctx.pmap(_per_example_unit, ctx.shuffled(pe))
   ctx.notes['catalogue_entries'] = len(cat)
+  ctx.notes['large_offset_entries'] = sum(e.offset for e in cat.values())
   ctx.notes['accumulator_classes'] = len({e.name for e in cat.values()})
   ctx.notes['datasets'] = n_datasets
   ctx.notes['per_example_entries'] = len(pe)
